@@ -39,7 +39,9 @@ type Writer struct {
 	// 2 = everything of the failing call (n == len, err != nil),
 	// 3 = all but one byte.
 	Mode int
-	// Dead: once a fault fired every later call fails accepting nothing.
+	// Transient: only the one call fails; later calls succeed again.
+	// Otherwise, once a fault fired every later call fails accepting nothing.
+	Transient  bool
 	Fired      bool
 	AfterFault int // calls made after the fault fired
 	Yield      func()
@@ -53,6 +55,12 @@ func (w *Writer) Write(p []byte) (int, error) {
 		w.Yield()
 	}
 	off := int64(len(w.Disk))
+	if w.Fired && w.Transient {
+		w.AfterFault++
+		w.Disk = append(w.Disk, p...)
+		w.Calls = append(w.Calls, WriteCall{Off: off, Len: len(p), Accepted: len(p)})
+		return len(p), nil
+	}
 	if w.Fired {
 		w.AfterFault++
 		w.Calls = append(w.Calls, WriteCall{Off: off, Len: len(p), Failed: true})
@@ -99,6 +107,9 @@ type ReaderAt struct {
 	// FailFrom >= 0: any access touching an offset >= FailFrom returns
 	// ErrInjected (bytes below FailFrom are still delivered). -1: never.
 	FailFrom int64
+	// FailTo >= 0 bounds the failing region to [FailFrom, FailTo) ("bad
+	// sector"); -1 = everything from FailFrom on fails.
+	FailTo int64
 	// EOFStyle: 0 = a read ending exactly at the end of the data returns
 	// (n, nil); 1 = it returns (n, io.EOF).  Both are legal.
 	EOFStyle int
@@ -109,10 +120,12 @@ type ReaderAt struct {
 	Reqs     []Range // requested ranges (only if Record)
 	Record   bool
 	Yield    func()
+	SeqReads int // calls of the sequential Read method
+	seqPos   int64
 }
 
 // NewReaderAt returns a reader that serves data without faults.
-func NewReaderAt(data []byte) *ReaderAt { return &ReaderAt{Data: data, FailFrom: -1} }
+func NewReaderAt(data []byte) *ReaderAt { return &ReaderAt{Data: data, FailFrom: -1, FailTo: -1} }
 
 func (r *ReaderAt) ReadAt(p []byte, off int64) (int, error) {
 	if r.Yield != nil {
@@ -132,7 +145,7 @@ func (r *ReaderAt) ReadAt(p []byte, off int64) (int, error) {
 	size := int64(len(r.Data))
 	limit := size
 	fail := false
-	if r.FailFrom >= 0 && end > r.FailFrom && len(p) > 0 {
+	if r.FailFrom >= 0 && end > r.FailFrom && len(p) > 0 && (r.FailTo < 0 || off < r.FailTo) {
 		// the access touches a failing offset (if that offset exists or not:
 		// the device fails before it can tell)
 		if r.FailFrom < limit {
@@ -371,4 +384,14 @@ func (r *ReadSeekSizer) Read(p []byte) (int, error) {
 		return int(n), io.EOF
 	}
 	return int(n), nil
+}
+
+// Read makes ReaderAt usable where an io.Reader is required (sfnt.Read takes
+// an io.Reader and upgrades it to io.ReaderAt); it serves the data
+// sequentially through ReadAt and counts its use.
+func (r *ReaderAt) Read(p []byte) (int, error) {
+	r.SeqReads++
+	n, err := r.ReadAt(p, r.seqPos)
+	r.seqPos += int64(n)
+	return n, err
 }
